@@ -157,6 +157,8 @@ type spkUniverse struct {
 	SvcVarsFor map[int][]int
 	// IgnoreExcludeLB: the speaker process runs with --ignore-exclude-lb.
 	IgnoreExcludeLB bool
+	// NoBurst: user events only at quiescent states (the rich start state has too wide an alphabet for bursts)
+	NoBurst bool
 	Ifs     []string
 	AddrUniverse []string
 }
@@ -198,6 +200,7 @@ type spkSys struct {
 	nodeVar    map[string]int
 	panicMsg   string
 	lastUser   string
+	burst      int // user events applied since the last delivery
 	statusEvents int
 	adsEvents    int
 }
@@ -465,8 +468,17 @@ func (s *spkSys) memoryDump() string {
 	return b.String()
 }
 
+var spkBurstMode = true
+
+func (s *spkSys) burstMark() string {
+	if spkBurstMode && !s.u.NoBurst && s.burst == 1 && !s.quiescent() {
+		return "user-event-may-follow\n"
+	}
+	return ""
+}
+
 func (s *spkSys) Key() string {
-	return s.storeDump() + fmt.Sprintf("Q svc=%v cfg=%v node=%v\n", s.svcQ.Keys(), s.cfgQ.Keys(), s.nodeQ.Keys()) + s.memoryDump() + s.observable() + s.panicMsg
+	return s.burstMark() + s.storeDump() + fmt.Sprintf("Q svc=%v cfg=%v node=%v\n", s.svcQ.Keys(), s.cfgQ.Keys(), s.nodeQ.Keys()) + s.memoryDump() + s.observable() + s.panicMsg
 }
 
 func (s *spkSys) Enabled() []verifrt.Event {
@@ -483,7 +495,9 @@ func (s *spkSys) Enabled() []verifrt.Event {
 	for _, k := range s.svcQ.Keys() {
 		evs = append(evs, verifrt.Event{Kind: "dsvc", S: k})
 	}
-	if !s.quiescent() {
+	// user events at quiescent states, and one more right after a user event before anything of it was delivered
+	// (two API changes observed together)
+	if !s.quiescent() && !(spkBurstMode && !s.u.NoBurst && s.burst == 1) {
 		return evs
 	}
 	for i, n := range s.u.Svcs {
@@ -548,6 +562,9 @@ func (s *spkSys) guard(f func()) {
 func (s *spkSys) Apply(ev verifrt.Event) {
 	if ev.User {
 		s.lastUser = ev.Kind
+		s.burst++
+	} else {
+		s.burst = 0
 	}
 	switch ev.Kind {
 	case "svc":
